@@ -192,7 +192,7 @@ func checkOperationIdentity(c *Ctx, gen *packages.Package) {
 // different operation (other method or other path) gets its key as name.
 func checkOperationDedup(c *Ctx, gen *packages.Package) {
 	rule := "C08.R3.dedup"
-	c.Rule(rule, "an operation id already used by a different operation is replaced by the unique method+path key", 2)
+	c.Rule(rule, "an operation id already used by a different operation is replaced by the method+path key, and a key that is taken is numbered until it is free", 3)
 	fd := load.FuncDecl(gen, "gatherOperations")
 	if fd == nil {
 		c.Anchor(rule, "generator.gatherOperations", "not found")
@@ -246,6 +246,45 @@ func checkOperationDedup(c *Ctx, gen *packages.Package) {
 		}
 	}
 	c.Check(bad == "", rule, "generator.gatherOperations › rename when the id belongs to a different operation", c.posOf(gen, pos), "found && (method differs || path differs)", "`"+goan.ExprString(cond)+"`: "+bad)
+	// the final name is probed until it is free before the operation is stored under it
+	var storePos token.Pos
+	probed := false
+	ast.Inspect(fd.Body, func(n ast.Node) bool {
+		switch x := n.(type) {
+		case *ast.ForStmt:
+			taken, brk, renames := false, false, false
+			ast.Inspect(x, func(m ast.Node) bool {
+				switch y := m.(type) {
+				case *ast.AssignStmt:
+					if len(y.Lhs) == 2 && len(y.Rhs) == 1 {
+						if ix, ok := y.Rhs[0].(*ast.IndexExpr); ok && goan.IsIdent(ix.X, "operations") && goan.IsIdent(ix.Index, "nm") {
+							taken = true
+						}
+					}
+					if len(y.Lhs) == 1 && goan.IsIdent(y.Lhs[0], "nm") {
+						renames = true
+					}
+				case *ast.BranchStmt:
+					if y.Tok == token.BREAK {
+						brk = true
+					}
+				}
+				return true
+			})
+			if taken && brk && renames {
+				probed = true
+			}
+		case *ast.AssignStmt:
+			if len(x.Lhs) == 1 {
+				if ix, ok := x.Lhs[0].(*ast.IndexExpr); ok && goan.IsIdent(ix.X, "operations") && goan.IsIdent(ix.Index, "nm") {
+					storePos = x.Pos()
+				}
+			}
+		}
+		return true
+	})
+	c.Check(probed && storePos.IsValid(), rule, "generator.gatherOperations › the name is probed until free before operations[nm] is stored", c.posOf(gen, fd.Pos()), "loop: lookup operations[nm], break when free, rename otherwise",
+		"operations[nm] = opr can overwrite another operation: keys built from method and path are not unique (GET /a-b and GET /a_b both give GetAB) and nothing renames the second one")
 	// the key is built from method and path
 	okKey := false
 	ast.Inspect(fd.Body, func(n ast.Node) bool {
@@ -264,7 +303,7 @@ func checkOperationDedup(c *Ctx, gen *packages.Package) {
 // different source, and records it otherwise; write returns that error.
 func checkCollisionDetection(c *Ctx, gen *packages.Package) {
 	rule := "C08.R4.collision-detection"
-	c.Rule(rule, "GenOpts.write refuses to generate a target file that was already generated from a differently named spec object", 4)
+	c.Rule(rule, "GenOpts.write refuses to generate a target file that was already generated from a differently named spec object", 5)
 	info := gen.TypesInfo
 	fd := load.FuncDecl(gen, "GenOpts.write")
 	if fd == nil {
@@ -318,6 +357,16 @@ func checkCollisionDetection(c *Ctx, gen *packages.Package) {
 		return
 	}
 	c.Ok(rule, "generator.GenOpts.write › collision check", c.posOf(gen, callPos), "calls "+load.FuncName(detector))
+	// objects are told apart by their spec name (x-go-name can give two definitions one Go name)
+	bySpecName := false
+	ast.Inspect(detector.Body, func(n ast.Node) bool {
+		if bl, ok := n.(*ast.BasicLit); ok && bl.Kind == token.STRING && bl.Value == `"OriginalName"` {
+			bySpecName = true
+		}
+		return true
+	})
+	c.Check(bySpecName, rule, "generator."+load.FuncName(detector)+" › objects identified by their spec name", c.posOf(gen, detector.Pos()), "reads the OriginalName field",
+		"the collision check identifies objects by their Go name only: two definitions carrying the same x-go-name look like one object and overwrite each other silently")
 	c.Check(returned, rule, "generator.GenOpts.write › collision error is returned", c.posOf(gen, callPos), "if err := …; err != nil { return err }", "the error of the collision check is not returned: generation goes on and overwrites the file")
 	// no success return before the check (e.g. the skip_exists shortcut): a second object skipped
 	// because the first one's file exists would never be reported
